@@ -136,7 +136,8 @@ Section Proofs.
   Lemma balanced_avl l k v r : avl l -> avl r -> -3 <= height _ _ l - height _ _ r <= 3 ->
     exists t, balanced _ _ l k v r = Ok t /\ avl t
       /\ bindings t = bindings l ++ (k, v) :: bindings r
-      /\ (Z.max (height _ _ l) (height _ _ r) <= height _ _ t <= Z.max (height _ _ l) (height _ _ r) + 1).
+      /\ (Z.max (height _ _ l) (height _ _ r) <= height _ _ t <= Z.max (height _ _ l) (height _ _ r) + 1)
+      /\ (-2 <= height _ _ l - height _ _ r <= 2 -> height _ _ t = Z.max (height _ _ l) (height _ _ r) + 1).
   Proof.
     intros Hl Hr Hb. pose proof (height_nonneg l Hl) as Nl. pose proof (height_nonneg r Hr) as Nr.
     unfold balanced.
@@ -147,8 +148,9 @@ Section Proofs.
       destruct (height _ _ ll >=? height _ _ lr) eqn:E2.
       + destruct (create_avl lr k v r Hlr Hr ltac:(cbn in *; lia)) as (Ha & Hh & Hbd).
         destruct (node_avl ll lk lv (create _ _ lr k v r) Hll Ha ltac:(cbn in *; lia)) as (Ha' & Hh' & Hbd').
-        eexists; split; [reflexivity|]. split; auto. split.
+        eexists; split; [reflexivity|]. split; auto. split; [|split].
         * rewrite Hbd', Hbd. cbn [bindings]. repeat (rewrite <- app_assoc; cbn [app]). reflexivity.
+        * cbn in *. lia.
         * cbn in *. lia.
       + destruct lr as [|lrk lrv|lrh lrk lrv lrl lrr]; cbn in E2, Hlb, Hlh, Nlr; try lia.
         cbn [forcedNodeWithoutHeight bind]. destruct Hlr as (Ha1 & Ha2 & Hh2 & Hb2).
@@ -156,8 +158,9 @@ Section Proofs.
         destruct (create_avl ll lk lv lrl Hll Ha1 ltac:(cbn in *; lia)) as (Hca & Hch & Hcb).
         destruct (create_avl lrr k v r Ha2 Hr ltac:(cbn in *; lia)) as (Hda & Hdh & Hdb).
         destruct (node_avl _ lrk lrv _ Hca Hda ltac:(cbn in *; lia)) as (Hna & Hnh & Hnb).
-        eexists; split; [reflexivity|]. split; auto. split.
+        eexists; split; [reflexivity|]. split; auto. split; [|split].
         * rewrite Hnb, Hcb, Hdb. cbn [bindings]. repeat (rewrite <- app_assoc; cbn [app]). reflexivity.
+        * cbn in *. lia.
         * cbn in *. lia.
     - destruct (height _ _ r >? height _ _ l + 2) eqn:E3.
       + destruct r as [|rk rv|rh rk rv rl rr]; cbn in E3, Hb, Nr; try lia.
@@ -166,8 +169,9 @@ Section Proofs.
         destruct (height _ _ rr >=? height _ _ rl) eqn:E2.
         * destruct (create_avl l k v rl Hl Hrl ltac:(cbn in *; lia)) as (Ha & Hh & Hbd).
           destruct (node_avl (create _ _ l k v rl) rk rv rr Ha Hrr ltac:(cbn in *; lia)) as (Ha' & Hh' & Hbd').
-          eexists; split; [reflexivity|]. split; auto. split.
+          eexists; split; [reflexivity|]. split; auto. split; [|split].
           -- rewrite Hbd', Hbd. cbn [bindings]. repeat (rewrite <- app_assoc; cbn [app]). reflexivity.
+          -- cbn in *. lia.
           -- cbn in *. lia.
         * destruct rl as [|rlk rlv|rlh rlk rlv rll rlr]; cbn in E2, Hrb, Hrh, Nrl; try lia.
           cbn [forcedNodeWithoutHeight bind]. destruct Hrl as (Ha1 & Ha2 & Hh2 & Hb2).
@@ -175,10 +179,118 @@ Section Proofs.
           destruct (create_avl l k v rll Hl Ha1 ltac:(cbn in *; lia)) as (Hca & Hch & Hcb).
           destruct (create_avl rlr rk rv rr Ha2 Hrr ltac:(cbn in *; lia)) as (Hda & Hdh & Hdb).
           destruct (node_avl _ rlk rlv _ Hca Hda ltac:(cbn in *; lia)) as (Hna & Hnh & Hnb).
-          eexists; split; [reflexivity|]. split; auto. split.
+          eexists; split; [reflexivity|]. split; auto. split; [|split].
           -- rewrite Hnb, Hcb, Hdb. cbn [bindings]. repeat (rewrite <- app_assoc; cbn [app]). reflexivity.
           -- cbn in *. lia.
+          -- cbn in *. lia.
       + destruct (create_avl l k v r Hl Hr ltac:(lia)) as (Ha & Hh & Hbd).
-        eexists; split; [reflexivity|]. split; auto. split; auto. lia.
+        eexists; split; [reflexivity|]. split; auto. split; auto. split; lia.
+  Qed.
+
+  (* ---------------- specification on sorted association lists ---------------- *)
+  Fixpoint put (k : Z) (v : V) (l : list (Z * V)) : list (Z * V) :=
+    match l with
+    | [] => [(k, v)]
+    | (k', v') :: l' => if k <? k' then (k, v) :: l else if k =? k' then (k, v) :: l' else (k', v') :: put k v l'
+    end.
+
+  Definition keys_lt (l : list (Z * V)) (k : Z) : Prop := Forall (fun p => fst p < k) l.
+  Definition keys_gt (l : list (Z * V)) (k : Z) : Prop := Forall (fun p => k < fst p) l.
+
+  (* strictly increasing keys *)
+  Fixpoint sorted (l : list (Z * V)) : Prop :=
+    match l with [] => True | (k, _) :: l' => keys_gt l' k /\ sorted l' end.
+
+  Lemma sorted_app_inv l1 k v l2 : sorted (l1 ++ (k, v) :: l2) ->
+    sorted l1 /\ sorted l2 /\ keys_lt l1 k /\ keys_gt l2 k.
+  Proof.
+    induction l1 as [|[k1 v1] l1 IH]; cbn [app sorted].
+    - intros [H1 H2]. repeat split; auto. constructor.
+    - intros [H1 H2]. destruct (IH H2) as (Ha & Hb & Hc & Hd). unfold keys_gt in H1.
+      apply Forall_app in H1. destruct H1 as [H1a H1b]. inversion H1b; subst. cbn in *.
+      repeat split; auto. constructor; auto.
+  Qed.
+
+  Lemma put_app_lt k v l1 k' v' l2 : k < k' -> put k v (l1 ++ (k', v') :: l2) = put k v l1 ++ (k', v') :: l2.
+  Proof.
+    intros Hlt. induction l1 as [|[k1 v1] l1 IH]; cbn [app put].
+    - destruct (Z.ltb_spec k k'); [reflexivity|lia].
+    - destruct (k <? k1); [reflexivity|]. destruct (k =? k1); [reflexivity|]. cbn [app]. now rewrite IH.
+  Qed.
+
+  Lemma put_app_eq k v l1 v' l2 : keys_lt l1 k -> put k v (l1 ++ (k, v') :: l2) = l1 ++ (k, v) :: l2.
+  Proof.
+    intros H. induction l1 as [|[k1 v1] l1 IH]; cbn [app put].
+    - destruct (Z.ltb_spec k k); [lia|]. now rewrite Z.eqb_refl.
+    - inversion H; subst. cbn in *. destruct (Z.ltb_spec k k1); [lia|]. destruct (Z.eqb_spec k k1); [lia|].
+      now rewrite IH.
+  Qed.
+
+  Lemma put_app_gt k v l1 k' v' l2 : keys_lt l1 k' -> k' < k ->
+    put k v (l1 ++ (k', v') :: l2) = l1 ++ (k', v') :: put k v l2.
+  Proof.
+    intros H Hlt. induction l1 as [|[k1 v1] l1 IH]; cbn [app put].
+    - destruct (Z.ltb_spec k k'); [lia|]. destruct (Z.eqb_spec k k'); [lia|reflexivity].
+    - inversion H; subst. cbn in *. destruct (Z.ltb_spec k k1); [lia|]. destruct (Z.eqb_spec k k1); [lia|].
+      now rewrite IH.
+  Qed.
+
+  (* ---------------- insert over the fuelled embedding ---------------- *)
+  Notation ins := (insert Z V cmp phys_eq).
+
+  Theorem insert_correct k v : forall t, avl t -> sorted (bindings t) ->
+    forall fuel, height _ _ t < Z.of_nat fuel ->
+    exists t', ins fuel t k v = Ok t' /\ avl t' /\ bindings t' = put k v (bindings t)
+               /\ height _ _ t <= height _ _ t' <= height _ _ t + 1.
+  Proof.
+    induction t as [|k0 v0|h k0 v0 l IHl r IHr]; intros Ha Hs fuel Hf.
+    - destruct fuel as [|fuel]; [cbn in Hf; lia|]. cbn. eexists; split; [reflexivity|]. cbn. repeat split; auto; lia.
+    - destruct fuel as [|fuel]; [cbn in Hf; lia|]. cbn [insert cmp bind].
+      destruct (Z.eqb_spec (k - k0) 0) as [E|NE].
+      + assert (k = k0) by lia. subst k0.
+        destruct (phys_eq V v0 v) eqn:Ep.
+        * apply phys_eq_sound in Ep. subst v0. eexists; split; [reflexivity|]. cbn.
+          rewrite Z.ltb_irrefl, Z.eqb_refl. repeat split; auto; lia.
+        * eexists; split; [reflexivity|]. cbn. rewrite Z.ltb_irrefl, Z.eqb_refl. repeat split; auto; lia.
+      + destruct (Z.ltb_spec (k - k0) 0) as [Hlt|Hge].
+        * eexists; split; [reflexivity|]. cbn. destruct (Z.ltb_spec k k0); [|lia]. repeat split; auto; lia.
+        * eexists; split; [reflexivity|]. cbn. destruct (Z.ltb_spec k k0); [lia|]. destruct (Z.eqb_spec k k0); [lia|].
+          repeat split; auto; lia.
+    - destruct fuel as [|fuel]; [pose proof (height_nonneg _ Ha); cbn in *; lia|].
+      pose proof Ha as Ha'. cbn [avl] in Ha'. destruct Ha' as (Hal & Har & Hh & Hb).
+      pose proof (height_nonneg l Hal) as Nl. pose proof (height_nonneg r Har) as Nr.
+      cbn [bindings] in Hs. destruct (sorted_app_inv _ _ _ _ Hs) as (Hsl & Hsr & Hkl & Hkr).
+      cbn [insert cmp bind]. cbn [height] in Hf.
+      destruct (Z.eqb_spec (k - k0) 0) as [E|NE].
+      + assert (k = k0) by lia. subst k0.
+        destruct (phys_eq V v0 v) eqn:Ep.
+        * apply phys_eq_sound in Ep. subst v0. eexists; split; [reflexivity|]. split; auto.
+          cbn [bindings height]. rewrite put_app_eq by auto. split; [reflexivity|lia].
+        * eexists; split; [reflexivity|]. split; [cbn; auto|].
+          cbn [bindings height]. rewrite put_app_eq by auto. split; [reflexivity|lia].
+      + destruct (Z.ltb_spec (k - k0) 0) as [Hlt|Hge].
+        * destruct (IHl Hal Hsl fuel ltac:(lia)) as (ll & Hins & Hall & Hbl & Hhl). rewrite Hins. cbn [bind].
+          destruct (phys_eq (Map Z V) l ll) eqn:Ep.
+          -- apply phys_eq_sound in Ep. subst ll. eexists; split; [reflexivity|]. split; auto.
+             cbn [bindings height]. rewrite put_app_lt by lia. rewrite <- Hbl. split; [reflexivity|lia].
+          -- destruct (balanced_avl ll k0 v0 r Hall Har ltac:(lia)) as (t' & Hbal & Hat & Hbt & Hht & Hhe).
+             exists t'. split; [exact Hbal|]. split; auto. split.
+             ++ rewrite Hbt, Hbl. cbn [bindings]. now rewrite put_app_lt by lia.
+             ++ cbn [height]. destruct (Z_le_gt_dec (height _ _ ll - height _ _ r) 2).
+                ** assert (-2 <= height _ _ ll - height _ _ r <= 2) by lia. specialize (Hhe H). lia.
+                ** lia.
+        * destruct (IHr Har Hsr fuel ltac:(lia)) as (rr & Hins & Harr & Hbr & Hhr). rewrite Hins. cbn [bind].
+          assert (k0 < k) by lia.
+          destruct (phys_eq (Map Z V) r rr) eqn:Ep.
+          -- apply phys_eq_sound in Ep. subst rr. eexists; split; [reflexivity|]. split; auto.
+             cbn [bindings height]. rewrite put_app_gt by auto. rewrite <- Hbr. split; [reflexivity|lia].
+          -- destruct (balanced_avl l k0 v0 rr Hal Harr ltac:(lia)) as (t' & Hbal & Hat & Hbt & Hht & Hhe).
+             exists t'. split; [exact Hbal|]. split; auto. split.
+             ++ rewrite Hbt, Hbr. cbn [bindings]. now rewrite put_app_gt by auto.
+             ++ cbn [height]. destruct (Z_le_gt_dec (height _ _ rr - height _ _ l) 2).
+                ** assert (-2 <= height _ _ l - height _ _ rr <= 2) by lia. specialize (Hhe H0). lia.
+                ** lia.
   Qed.
 End Proofs.
+
+Print Assumptions insert_correct.
